@@ -1,5 +1,5 @@
 """gen.py — seeded generation of worlds and operation sequences (mostly-valid + malformed streams)."""
-import random
+import random, dataclasses
 from hw import *
 
 _CONFIG = None
@@ -83,7 +83,7 @@ def gen_world(rng, profile=None):
         vehicles.append(v)
     sim = ml.mock_sim(sim_time=t0, sim_timestep_duration_seconds=delta, vehicles=tuple(vehicles), stations=tuple(stations), bases=tuple(bases))
     ids = ([v.id for v in vehicles] + [f's{k}' for k in range(10)] + [f'b{k}' for k in range(4)] + REQ_IDS + CHARGER_IDS
-           + FLEETS + ['bev', 'ice', 's1', 'v9'])
+           + FLEETS + ['bev', 'ice', 's1', 'v9', 'v5', 'v6', 'b5', 's5'])
     w = World(sim, env, ids, schedules=sched_defs)
     w.geoids = geoids
     w.rate_structure = ml.mock_rate_structure()
@@ -196,6 +196,62 @@ def gen_prices_op(rng, w):
         ups.append(('s9', [('DCFC', 0.3)]))
     return ('prices', ups)
 
+
+def gen_raw_op(rng, w):
+    """raw simulation_state_ops entry points (C08): add / modify / remove / pop of all four kinds, incl. re-adding an existing id
+    at another place, moving inside / across search cells and back, and ids that do not exist"""
+    sim = w.sim
+    kind = rng.choice(['Vehicle'] * 4 + ['Request'] * 3 + ['Station', 'Base'])
+    act = rng.choice(['add', 'add', 'mod', 'mod', 'mod', 'rem', 'pop' if kind == 'Vehicle' else 'rem'])
+    coll = {'Vehicle': sim.vehicles, 'Request': sim.requests, 'Station': sim.stations, 'Base': sim.bases}[kind]
+    existing = sorted(coll.keys())
+    fresh = {'Vehicle': ['v5', 'v6'], 'Request': REQ_IDS, 'Station': ['s5'], 'Base': ['b5']}[kind]
+    g = rng.choice(w.geoids)
+    mechs = w.env.mechatronics
+    def build(eid, old=None):
+        if kind == 'Vehicle':
+            if old is not None:
+                nv = ml.mock_vehicle_from_geoid(eid, g, mechatronics=mechs[old.mechatronics_id])
+                return dataclasses.replace(old, position=nv.position)
+            return ml.mock_vehicle_from_geoid(eid, g, mechatronics=mechs[rng.choice(['bev', 'ice'])], soc=rng.choice([0.2, 0.9]),
+                                              membership=rand_membership(rng, w.fleets))
+        if kind == 'Request':
+            if old is not None:
+                nr = ml.mock_request_from_geoids(eid, g, old.destination)
+                return dataclasses.replace(old, position=nr.position)
+            return ml.mock_request_from_geoids(eid, g, rng.choice(w.geoids), departure_time=SimTime.build(int(sim.sim_time)),
+                                               passengers=rng.randint(1, 2), value=rng.choice([0, 3.5]),
+                                               fleet_id=(rng.choice(w.fleets) if w.fleets and rng.random() < 0.5 else None))
+        if kind == 'Station':
+            if old is not None:
+                if rng.random() < 0.6:
+                    return dataclasses.replace(old, membership=rand_membership(rng, w.fleets))     # same place
+                ns = ml.mock_station_from_geoid(eid, g, env=w.env)
+                return dataclasses.replace(old, position=ns.position)                              # moved: must be refused
+            return ml.mock_station_from_geoid(eid, g, chargers={rng.choice(CHARGER_IDS): rng.randint(1, 2)}, membership=rand_membership(rng, w.fleets), env=w.env)
+        if kind == 'Base':
+            if old is not None:
+                if rng.random() < 0.6:
+                    return dataclasses.replace(old, membership=rand_membership(rng, w.fleets))
+                nb = ml.mock_base_from_geoid(eid, g)
+                return dataclasses.replace(old, position=nb.position)
+            return ml.mock_base_from_geoid(eid, g, stall_count=rng.randint(0, 2), membership=rand_membership(rng, w.fleets))
+    if act == 'add':
+        if existing and rng.random() < 0.35:
+            eid = rng.choice(existing)             # re-add an id that is present (possibly elsewhere)
+            e = build(eid, coll[eid]) if rng.random() < 0.7 else build(eid)
+        else:
+            eid = rng.choice(fresh)
+            e = build(eid)
+        return ('add', e)
+    if act == 'mod':
+        if existing and rng.random() < 0.9:
+            eid = rng.choice(existing)
+            return ('mod', build(eid, coll[eid]))
+        return ('mod', build(rng.choice(fresh)))   # modify something that is not there
+    eid = rng.choice(existing) if existing and rng.random() < 0.85 else rng.choice(fresh)
+    return (act, kind, eid)
+
 class OpStream:
     """yields the next op given the current world; full simulation steps are emitted as their 8 component ops"""
     def __init__(self, rng, profile=None):
@@ -207,6 +263,8 @@ class OpStream:
         if self.queue:
             item = self.queue.pop(0)
             return item(w) if callable(item) else item
+        if rng.random() < self.profile.get('p_raw', 0.0):
+            return gen_raw_op(rng, w)
         r = rng.random()
         if r < self.profile.get('p_full_step', 0.45):
             self.queue = [lambda w: gen_prices_op(rng, w) if rng.random() < 0.2 else ('prices', []),
